@@ -5,7 +5,7 @@
     (ChaCha20-Poly1305 without associated data, scrypt r=8 p=1, further
     lengths) were produced by the libraries age calls.  The C05 correspondence
     runs the same Gallina functions against those libraries on fresh inputs. *)
-From Age Require Import Base Prims Crypto CryptoVectors.
+From Age Require Import Base Prims Crypto CryptoVectors CryptoRFC.
 
 Theorem C05_published_vectors :
   sha256_bytes (hx "616263")
@@ -25,4 +25,17 @@ Theorem C05_published_vectors :
     = Some (hx "95cbde9476e8907d7aade45cb4b873f88b595a68799fa152e6f8f7647aac7957").
 Proof. exact (conj kat_001 (conj kat_013 (conj kat_014 (conj kat_020 (conj kat_056 kat_057))))). Qed.
 
+(** Vectors for the inner functions, copied from the RFC texts (no library involved). *)
+Theorem C05_rfc_inner_vectors :
+  chacha_block (hx "000102030405060708090a0b0c0d0e0f101112131415161718191a1b1c1d1e1f")
+               (hx "000000090000004a00000000") 1
+    = hx "10f1e7e4d13b5915500fdd1fa32071c4c7d1f4c733c068030422aa9ac3d46c4ed2826446079faa0914c2d705d98b02a2b5129cd1de164eb9cbd083e8a2503c4e" /\
+  poly1305 (hx "85d6be7857556d337f4452fe42d506a80103808afb0db2fd4abff6af4149f51b")
+           (bs "Cryptographic Forum Research Group")
+    = hx "a8061dc1305136c6c22b8baf0c0127a9" /\
+  pbkdf2_1 (bs "passwd") (bs "salt") 64
+    = hx "55ac046e56e3089fec1691c22544b605f94185216dde0465e68b9d57c20dacbc49ca9cccf179b645991664b39d77ef317c71b845b1e30bd509112041d3a19783".
+Proof. exact (conj rfc8439_2_3_2_chacha20_block (conj rfc8439_2_5_2_poly1305 rfc7914_11_pbkdf2_c1)). Qed.
+
 Print Assumptions C05_published_vectors.
+Print Assumptions C05_rfc_inner_vectors.
